@@ -137,6 +137,13 @@ def warn_mode(cfg, b):
     return checks
 
 
+def few_constrained(tr, k=3):
+    """byte positions of the first k leaves whose type can be out of range (multiple value faults at once;
+    with every leaf symbolic the value warnings of a long message multiply into thousands of slow paths)"""
+    xs = [x for x in tr if x[4] == "leaf" and not sp.is_full_range(x[1])][:k]
+    return sp.free_positions(xs)
+
+
 def partitions(tier, seed):
     from .c13 import size_variants
 
@@ -170,7 +177,7 @@ def partitions(tier, seed):
             tr = sp.trace_of(sp.cmd_key(), data)
             lab = "%s-%s" % (sp.cc_name(cc), label)
             parts.extend(size_variants(P, "C08", sp.cmd_key(), lab, data, tr))
-            parts.append(sp.M(P, "C08", sp.cmd_key(), lab + "/values", data, sp.free_positions(tr), budget=40))
+            parts.append(sp.M(P, "C08", sp.cmd_key(), lab + "/values", data, few_constrained(tr), budget=40))
             # the tag (it decides whether a session area follows) over all 65536 values
             parts.append(sp.M(P, "C08", sp.cmd_key(), lab + "/tag", data, [0, 1], budget=45))
         for label, enc, data in G.responses(cc, minimal=quick):
@@ -178,6 +185,6 @@ def partitions(tier, seed):
             lab = "%s-%s" % (sp.cc_name(cc), label)
             cfg = {"cc": cc, "enc": enc}
             parts.extend(size_variants(P, "C08", sp.rsp_key(), lab, data, tr, cfg=cfg))
-            parts.append(sp.M(P, "C08", sp.rsp_key(), lab + "/values", data, sp.free_positions(tr), budget=40, cfg=cfg))
+            parts.append(sp.M(P, "C08", sp.rsp_key(), lab + "/values", data, few_constrained(tr), budget=40, cfg=cfg))
             parts.append(sp.M(P, "C08", sp.rsp_key(), lab + "/tag", data, [0, 1], budget=45, cfg=cfg))
     return parts
